@@ -122,13 +122,14 @@ class FConst:
 
 class FMono:
     """(product of integer sources) / den, computed with k roundings to nearest (each 1 +- 2^-53)"""
-    __slots__ = ('num', 'den', 'k')
+    __slots__ = ('num', 'den', 'k', 'p')
 
-    def __init__(self, num, den, k):
-        self.num, self.den, self.k = list(num), den, k
+    def __init__(self, num, den, k, p=53):
+        # p: precision in bits of the roundings (53: binary64, 24: binary32); mixed computations count every rounding at the coarser one
+        self.num, self.den, self.k, self.p = list(num), den, k, p
 
     def __repr__(self):
-        return 'FMono(%r/%r,k=%d)' % (self.num, self.den, self.k)
+        return 'FMono(%r/%r,k=%d%s)' % (self.num, self.den, self.k, '' if self.p == 53 else ',p=%d' % self.p)
 
 
 class FLin:
